@@ -681,14 +681,40 @@ open MaxLen SideBySide
 
 /-- **max_line_length_exact.** `WrapConfig::config_max_line_length` for ALL values: `max_lines = 1`
 (`--wrap-max-lines 0`, no wrapping) keeps the option; `max_lines = 0` (unlimited rows) or option 0 gives 0 =
-"never truncate"; otherwise `max(option, n panes + max(25 % of n panes, one pane))` with
-pane = terminal width / 2. -/
+"never truncate"; otherwise `max(option, F)` where `F` is `E = n panes + max(25 % of n panes, one pane)`,
+pane = width / 2, or — where `E` exceeds `usize::MAX` and the source computes it with saturating arithmetic
+(notes/fix-wrap-max-lines-overflow.diff) — `usize::MAX`: `min E usize::MAX ≤ F ≤ E`. One statement for both
+shapes of the source (plain `+ *` as pinned: `F = E`); `max_line_length_exact_within_usize` and
+`max_line_length_saturated` are its two halves. -/
 theorem max_line_length_exact (n mll w : Nat) :
+    ∃ F, min (w / 2 * n + max (w / 2 * n / 4) (w / 2)) Generated.Usize.usizeMax ≤ F ∧
+      F ≤ w / 2 * n + max (w / 2 * n / 4) (w / 2) ∧
+      Generated.configMaxLineLength n mll w =
+        if n = 1 then mll
+        else if n = 0 ∨ mll = 0 then 0
+        else max mll F :=
+  cml_spec n mll w
+
+/-- **max_line_length_exact_within_usize.** Wherever the formula stays within `usize` (every width and line limit
+anyone uses) the value is exactly `max(option, n panes + max(25 % of n panes, one pane))`. -/
+theorem max_line_length_exact_within_usize (n mll w : Nat)
+    (hU : w / 2 * n + max (w / 2 * n / 4) (w / 2) ≤ Generated.Usize.usizeMax) :
     Generated.configMaxLineLength n mll w =
       if n = 1 then mll
       else if n = 0 ∨ mll = 0 then 0
       else max mll (w / 2 * n + max (w / 2 * n / 4) (w / 2)) :=
-  cml_spec n mll w
+  cml_exact n mll w hU
+
+/-- **max_line_length_saturated.** Beyond it (`--wrap-max-lines` / `--width` of the order of `usize::MAX`) the value
+is at least `usize::MAX`: longer than any line. -/
+theorem max_line_length_saturated (n mll w : Nat) (hn : 2 ≤ n) (hm : 0 < mll)
+    (hU : Generated.Usize.usizeMax ≤ w / 2 * n + max (w / 2 * n / 4) (w / 2)) :
+    Generated.Usize.usizeMax ≤ Generated.configMaxLineLength n mll w := by
+  have := (cml_rows n mll w hn hm).1
+  omega
+
+example : Generated.Usize.usizeMax ≤
+    (9223372036854775807 : Nat) / 2 * 5 + max (9223372036854775807 / 2 * 5 / 4) (9223372036854775807 / 2) := by decide
 
 example : Generated.configMaxLineLength 3 3000 80 = 3000 ∧ Generated.configMaxLineLength 3 20 80 = 160 ∧
     Generated.configMaxLineLength 6 100 80 = 300 ∧ Generated.configMaxLineLength 0 20 80 = 0 ∧
@@ -706,13 +732,14 @@ theorem max_line_length_zero_iff (wml : Option Nat) (mll T : Nat) (fw : Option N
   cases wml with
   | none => simp [max_line_length_unlimited_wrap]
   | some k =>
-    simp [configMaxLen, Generated.configMaxLen, maxLinesOfArg, Generated.wrapMaxLinesIncrement, cml_zero_iff]
+    simp [configMaxLen, Generated.configMaxLen, cml_zero_iff, maxLinesOfArg_some_ne_zero]
 
 /-- **max_line_length_no_wrap.** Without side-by-side, and with `--wrap-max-lines 0` (one row, no
 wrapping), the option is used as it is. -/
 theorem max_line_length_no_wrap (wml : Option Nat) (mll T : Nat) (fw : Option Nat) :
     configMaxLen false wml mll T fw = mll ∧ configMaxLen true (some 0) mll T fw = mll := by
-  simp [configMaxLen, Generated.configMaxLen, maxLinesOfArg, Generated.wrapMaxLinesIncrement, cml_one]
+  have h : maxLinesOfArg (some 0) = 1 := (maxLinesOfArg_some_eq_one 0).2 rfl
+  simp [configMaxLen, Generated.configMaxLen, h, cml_one]
 
 /-- **max_line_length_ge_requested.** Side-by-side mode never truncates *more* than requested: the value is
 0 (no truncation) or at least the option. -/
@@ -724,14 +751,16 @@ theorem max_line_length_ge_requested (sbs : Bool) (wml : Option Nat) (mll T : Na
 
 /-- **max_line_length_enough_for_rows.** `--wrap-max-lines N` with `N ≥ 1` (`N + 1` rows) and a non-zero
 option: the value is at least `N + 2` panes (one pane more than the rows can show), at least 125 % of
-`N + 1` panes, and at least the option. Pane = `formulaWidth / 2`, where `formulaWidth` is the width
-`Config::from` passes (as pinned: the terminal width). -/
+`N + 1` panes — or at least `usize::MAX` where those exceed it (saturating arithmetic) — and at least the
+option. Pane = `formulaWidth / 2`, where `formulaWidth` is the width `Config::from` passes. For ALL `N`, widths,
+options (both shapes of the source). -/
 theorem max_line_length_enough_for_rows (N mll T : Nat) (fw : Option Nat) (hN : 1 ≤ N) (hm : 0 < mll) :
-    (N + 2) * (formulaWidth T fw / 2) ≤ configMaxLen true (some N) mll T fw ∧
-    formulaWidth T fw / 2 * (N + 1) + formulaWidth T fw / 2 * (N + 1) / 4 ≤ configMaxLen true (some N) mll T fw ∧
+    min ((N + 2) * (formulaWidth T fw / 2)) Generated.Usize.usizeMax ≤ configMaxLen true (some N) mll T fw ∧
+    min (formulaWidth T fw / 2 * (N + 1) + formulaWidth T fw / 2 * (N + 1) / 4) Generated.Usize.usizeMax
+      ≤ configMaxLen true (some N) mll T fw ∧
     mll ≤ configMaxLen true (some N) mll T fw := by
-  have := cml_enough (N + 1) mll (formulaWidth T fw) (by omega) hm
-  simpa [configMaxLen, Generated.configMaxLen, maxLinesOfArg, Generated.wrapMaxLinesIncrement, formulaWidth] using this
+  have := cml_enough_arg N mll (formulaWidth T fw) hN hm
+  simpa [configMaxLen, Generated.configMaxLen, formulaWidth] using this
 
 example : configMaxLen true (some 2) 20 80 (some 80) = 160 ∧ (2 + 2) * (formulaWidth 80 (some 80) / 2) = 160 := by decide
 
@@ -741,12 +770,15 @@ one-column wrap symbol) plus the `+`/`-`/blank the raw line starts with is not m
 `Config::max_line_length` — provided the view is not wider than the width the formula uses
 (`W ≤ formulaWidth`: on the code as pinned "`--width` is not larger than the terminal width", always so
 without `--width`; see `max_line_length_view_width` for when this is automatic) and a pane has at least 2
-columns. Stated for both panels, even and odd widths, both fill methods. (Or the value is 0: no truncation.) -/
+columns. Stated for both panels, even and odd widths, both fill methods. (Or the value is 0: no truncation; or it
+is `usize::MAX` or more — saturating arithmetic with `N` / the width of the order of `usize::MAX`: no line is
+that long, see `line_that_fits_rows_not_truncated`.) -/
 theorem max_line_length_beyond_rows (N mll T gutter : Nat) (fw : Option Nat) (ansi markers : Bool) (panel : Nat)
     (hN : 1 ≤ N) (hW : viewWidth T fw ≤ formulaWidth T fw) (hT : 2 ≤ formulaWidth T fw / 2)
     (hp : panel = (panelWidths (viewWidth T fw) ansi).1 ∨ panel = (panelWidths (viewWidth T fw) ansi).2) :
     configMaxLen true (some N) mll T fw = 0 ∨
-      rowsCapacity (N + 1) (availableLineWidth panel gutter markers) + 1 ≤ configMaxLen true (some N) mll T fw := by
+      rowsCapacity (N + 1) (availableLineWidth panel gutter markers) + 1 ≤ configMaxLen true (some N) mll T fw ∨
+      Generated.Usize.usizeMax ≤ configMaxLen true (some N) mll T fw := by
   by_cases hm : mll = 0
   · left; exact (max_line_length_zero_iff _ _ _ _).2 (Or.inr hm)
   · right
@@ -855,17 +887,20 @@ theorem requested_length_never_truncated (sbs : Bool) (wml : Option Nat) (mll T 
 /-- **line_that_fits_rows_not_truncated.** A hunk line whose text fits in the `N + 1` rows that
 `--wrap-max-lines N` (`N ≥ 1`) permits on its side of the view is not cut before it is wrapped, whatever
 `--max-line-length` says (same provisos as `max_line_length_beyond_rows`). `raw` = the raw line: one
-prefix column and the text. -/
+prefix column and the text; `len` = its length in bytes, a `usize` (`hlen`: true of every Rust string — where the
+limit saturates at `usize::MAX` it still exceeds every line). -/
 theorem line_that_fits_rows_not_truncated (N mll T gutter len : Nat) (fw : Option Nat) (ansi markers : Bool)
     (panel : Nat) (sw : List UInt8 → Bool) (raw tail : List Item)
     (hN : 1 ≤ N) (hW : viewWidth T fw ≤ formulaWidth T fw) (hT : 2 ≤ formulaWidth T fw / 2)
     (hp : panel = (panelWidths (viewWidth T fw) ansi).1 ∨ panel = (panelWidths (viewWidth T fw) ansi).2)
-    (hfit : measure raw ≤ rowsCapacity (N + 1) (availableLineWidth panel gutter markers) + 1) :
+    (hfit : measure raw ≤ rowsCapacity (N + 1) (availableLineWidth panel gutter markers) + 1)
+    (hlen : len ≤ Generated.Usize.usizeMax) :
     ingestTrunc (configMaxLen true (some N) mll T fw) len sw raw tail = .ok raw := by
   apply ingestTrunc_keeps
-  rcases max_line_length_beyond_rows N mll T gutter fw ansi markers panel hN hW hT hp with h | h
+  rcases max_line_length_beyond_rows N mll T gutter fw ansi markers panel hN hW hT hp with h | h | h
   · exact Or.inl h
   · right; right; omega
+  · right; left; omega
 
 example : measure [.text [⟨"+", 1⟩], .text (List.replicate 106 ⟨"x", 1⟩)] ≤
     rowsCapacity 3 (availableLineWidth (panelWidths (viewWidth 81 (some 81)) true).2 5 false) + 1 := by decide
@@ -881,11 +916,11 @@ theorem line_shown_in_full_not_truncated (cfg : Cfg) (line : List Sec) (fill : N
     (hstop : o.stop = .stackEmpty) (hrows : o.rows.length ≤ N + 1)
     (hN : 1 ≤ N) (hW : viewWidth T fw ≤ formulaWidth T fw) (hT : 2 ≤ formulaWidth T fw / 2)
     (hp : panel = (panelWidths (viewWidth T fw) ansi).1 ∨ panel = (panelWidths (viewWidth T fw) ansi).2)
-    (hraw : measure raw ≤ explodeWidth (explode line) + 1) :
+    (hraw : measure raw ≤ explodeWidth (explode line) + 1) (hlen : len ≤ Generated.Usize.usizeMax) :
     ingestTrunc (configMaxLen true (some N) mll T fw) len sw raw tail = .ok raw := by
   have h1 := wrap_capacity cfg line _ fill hint o hz hs1 hwrap hstop
   have h2 := rowsCapacity_mono _ _ (availableLineWidth panel gutter markers) hrows
-  exact line_that_fits_rows_not_truncated N mll T gutter len fw ansi markers panel sw raw tail hN hW hT hp (by omega)
+  exact line_that_fits_rows_not_truncated N mll T gutter len fw ansi markers panel sw raw tail hN hW hT hp (by omega) hlen
 
 /-- **max_line_length_short_when_view_wider_than_terminal_witness** (a defect of the code as pinned, see
 notes/S3-strengthen-C07.md; conditional on the source still passing the terminal width): the pane in the
@@ -915,13 +950,83 @@ theorem line_that_fits_rows_not_truncated_any_view (N mll T gutter len : Nat) (f
     (panel : Nat) (sw : List UInt8 → Bool) (raw tail : List Item)
     (hN : 1 ≤ N) (hT : 2 ≤ formulaWidth T fw / 2)
     (hp : panel = (panelWidths (viewWidth T fw) ansi).1 ∨ panel = (panelWidths (viewWidth T fw) ansi).2)
-    (hfit : measure raw ≤ rowsCapacity (N + 1) (availableLineWidth panel gutter markers) + 1) :
+    (hfit : measure raw ≤ rowsCapacity (N + 1) (availableLineWidth panel gutter markers) + 1)
+    (hlen : len ≤ Generated.Usize.usizeMax) :
     ingestTrunc (configMaxLen true (some N) mll T fw) len sw raw tail = .ok raw :=
   line_that_fits_rows_not_truncated N mll T gutter len fw ansi markers panel sw raw tail hN
-    (view_width_is_formula_width T fw) hT hp hfit
+    (view_width_is_formula_width T fw) hT hp hfit hlen
 
 -- `--width 400` on an 80-column terminal, `--wrap-max-lines 5 --max-line-length 100`: the limit now follows the view
 example : configMaxLen true (some 5) 100 80 (some 400) = 1500 := by decide
+
+/-! ### The `usize` arithmetic itself (session 4: `--wrap-max-lines` / `--width` of the order of `usize::MAX`)
+
+`Generated.configMaxLineLength` reads `usize` as `Nat`. `Generated.configMaxLineLengthChecked` is the same syntax
+tree with the arithmetic of a build with overflow checks (delta's dev profile): every plain `+ *` is `none` (the
+panic `attempt to add / multiply with overflow`) when the result exceeds `usize::MAX`, saturating operations, `max`,
+`/ 2`, `/ 4` always return; likewise `Generated.wrapMaxLinesOfNumberChecked` for `adapt_wrap_max_lines_argument`. -/
+
+/-- **max_line_length_nat_model_faithful.** Whenever the overflow-checked evaluation of `config_max_line_length`
+returns a value, it is the value of the `Nat` translation all theorems above are about — the proviso "no
+intermediate value exceeds `usize::MAX`" as a theorem (both shapes of the source); the same for
+`adapt_wrap_max_lines_argument`. -/
+theorem max_line_length_nat_model_faithful (n mll w v : Nat) :
+    (Generated.configMaxLineLengthChecked n mll w = some v → v = Generated.configMaxLineLength n mll w) ∧
+    (Generated.wrapMaxLinesOfNumberChecked n = some v → v = maxLinesOfArg (some n)) :=
+  ⟨cmlChecked_sound n mll w v, wmlChecked_sound n v⟩
+
+example : Generated.configMaxLineLengthChecked 6 100 80 = some 300 ∧ Generated.wrapMaxLinesOfNumberChecked 5 = some 6 := by
+  decide
+
+/-- **max_line_length_total.** For ALL `max_lines`, `--max-line-length`, widths — no bound —
+`config_max_line_length` returns a value in a build with overflow checks (no overflow panic: every operation is
+saturating or cannot overflow), that value is the one of the `Nat` translation, and it is a `usize` again. `hfix`:
+the corner `(usize::MAX, usize::MAX, usize::MAX)` evaluates without a panic — decided on the generated definition:
+true once the source uses `saturating_mul` / `saturating_add` (notes/fix-wrap-max-lines-overflow.diff), false with
+plain `* +` (`max_line_length_total_or_overflow_witness`). Proved by unfolding the generated definition. -/
+theorem max_line_length_total
+    (hfix : (Generated.configMaxLineLengthChecked Generated.Usize.usizeMax Generated.Usize.usizeMax
+              Generated.Usize.usizeMax).isSome = true)
+    (n mll w : Nat) :
+    ∃ v, Generated.configMaxLineLengthChecked n mll w = some v ∧ v = Generated.configMaxLineLength n mll w ∧
+      (mll ≤ Generated.Usize.usizeMax → v ≤ Generated.Usize.usizeMax) := by
+  obtain ⟨v, hv⟩ := cmlChecked_total hfix n mll w
+  have e := cmlChecked_sound n mll w v hv
+  exact ⟨v, hv, e, fun hm => e ▸ cml_le_usizeMax hfix n mll w hm⟩
+
+-- the hypothesis holds of the repaired arithmetic (written out here; on the repaired tree it is the generated term)
+example : (Generated.Usize.ckMax (some Generated.Usize.usizeMax)
+    ((Generated.Usize.ckSatMul (some (Generated.Usize.usizeMax / 2)) (some Generated.Usize.usizeMax)).bind fun x =>
+      Generated.Usize.ckSatAdd (some x) (Generated.Usize.ckMax (Generated.Usize.ckDiv (some x) (some 4))
+        (some (Generated.Usize.usizeMax / 2))))).isSome = true := by decide
+
+/-- **wrap_max_lines_total.** The same for `adapt_wrap_max_lines_argument`: every number `--wrap-max-lines` can be
+given yields a `usize` (`hfix`: `usize::MAX` itself does — true with `saturating_add(1)`, false with `+ 1`). -/
+theorem wrap_max_lines_total (hfix : (Generated.wrapMaxLinesOfNumberChecked Generated.Usize.usizeMax).isSome = true)
+    (n : Nat) :
+    ∃ v, Generated.wrapMaxLinesOfNumberChecked n = some v ∧ v = maxLinesOfArg (some n) ∧ v ≤ Generated.Usize.usizeMax := by
+  obtain ⟨v, hv, hle⟩ := wmlChecked_total hfix n
+  exact ⟨v, hv, wmlChecked_sound n v hv, hle⟩
+
+example : (Generated.Usize.ckSatAdd (some Generated.Usize.usizeMax) (some 1)).isSome = true := by decide
+
+/-- **max_line_length_total_or_overflow_witness.** Unconditionally, of the source as it is now: either both
+functions are total in a build with overflow checks (the repaired tree), or one of the three start-up panics found by
+C03 is there — `--wrap-max-lines 18446744073709551615` (`+ 1`), `--side-by-side --wrap-max-lines 100000000000000000`,
+`--side-by-side --width 9223372036854775807` (the multiplication). -/
+theorem max_line_length_total_or_overflow_witness :
+    ((∀ n mll w, (Generated.configMaxLineLengthChecked n mll w).isSome = true) ∧
+      (∀ n, (Generated.wrapMaxLinesOfNumberChecked n).isSome = true)) ∨
+    Generated.wrapMaxLinesOfNumberChecked 18446744073709551615 = none ∨
+    Generated.configMaxLineLengthChecked 100000000000000001 3000 80 = none ∨
+    Generated.configMaxLineLengthChecked 3 3000 9223372036854775807 = none := by
+  first
+    | exact Or.inr (by decide)
+    | refine Or.inl ⟨fun n mll w => ?_, fun n => ?_⟩
+      · obtain ⟨v, hv, _⟩ := max_line_length_total (by decide) n mll w
+        rw [hv]; rfl
+      · obtain ⟨v, hv, _⟩ := wrap_max_lines_total (by decide) n
+        rw [hv]; rfl
 
 end MaxLineLength
 
